@@ -1564,41 +1564,52 @@ def x_spaces(ctx):
                       0, s),
               x_space("x2-refused-crash1", ["Rr", "V"], [I, I], 5, 0, None,
                       1, s),
-              # several tasks of one process on ONE terminal, all orders
-              x_space("x2-same-terminal-2ex",
-                      [[[0, "rw"], [0, "o"]], "wr"], [I, I], None, 1, None,
-                      0, s, sched=[A, None]),
-              x_space("x2-same-terminal-both",
+              # several tasks of one process on ONE terminal, the tasks in
+              # all orders; complete, or bounded by preemptions between the
+              # processes (the choice among the tasks of a process is free)
+              x_space("x2-same-terminal", [[[0, "r"], [0, "w"]], "o"],
+                      [I, U], 6, 0, None, 0, s, sched=[A, None]),
+              x_space("x2-same-terminal-fresh",
+                      [[[0, "o"], [0, "r"]], "w"], [I, I], None, 1, None, 0,
+                      s, sched=[A, None]),
+              x_space("x2-same-terminal-2ex-preempt3",
+                      [[[0, "rw"], [0, "o"]], "wr"], [I, I], None, 1, 3, 0,
+                      s, sched=[A, None]),
+              x_space("x2-same-terminal-both-preempt3",
                       [[[0, "r"], [0, "o"]], [[0, "w"], [0, "r"]]], [U, I],
-                      7, 0, None, 0, s, sched=[A, A]),
-              x_space("x2-same-terminal-3tasks",
+                      7, 0, 3, 0, s, sched=[A, A]),
+              x_space("x2-same-terminal-3tasks-preempt2",
                       [[[0, "w"], [0, "r"], [0, "o"]], "r"], [I, U], 5, 0,
-                      None, 0, s, sched=[A, None]),
-              x_space("x3-same-terminal",
+                      2, 0, s, sched=[A, None]),
+              x_space("x3-same-terminal-preempt2",
                       [[[0, "r"], [0, "w"]], "o", "r"], [I, U, I], 7, 0,
-                      None, 0, s, sched=[A, None, None]),
-              x_space("x2-two-terminals-all-orders",
-                      [[[1, "r"], [0, "w"]], [[1, "o"]]], [I, I], 6, 0, None,
+                      2, 0, s, sched=[A, None, None]),
+              x_space("x2-two-terminals-all-orders-preempt3",
+                      [[[1, "r"], [0, "w"]], [[1, "o"]]], [I, I], 6, 0, 3,
                       0, s, sched=[A, None]),
               x_space("x2-same-terminal-refused",
                       [[[0, "R"], [0, "w"]], "Or"], [I, I], 6, 0, None, 0,
                       s, sched=[A, None]),
               # life cycles on the lock file
+              x_space("x2-rejoin", [dict(sessions=["r", "w"]), "o"], [I, I],
+                      6, 0, None, 0, s),
+              x_space("x2-rejoin-fresh", [dict(sessions=["w", "o"]), "r"],
+                      [I, U], None, 0, None, 0, s),
               x_space("x2-rejoin-both",
                       [dict(sessions=["r", "w"]), dict(sessions=["o", "r"])],
                       [I, U], 6, 0, None, 0, s),
-              x_space("x2-rejoin-2ex",
-                      [dict(sessions=["rw", "o"]), "wr"], [U, I], None, 1,
-                      None, 0, s),
               x_space("x2-rejoin-thrice",
                       [dict(sessions=["r", "w", "o"]), "w"], [I, I], None, 0,
                       None, 0, s),
-              x_space("x3-rejoin",
+              x_space("x2-rejoin-2ex-preempt3",
+                      [dict(sessions=["rw", "o"]), "wr"], [U, I], None, 1,
+                      3, 0, s),
+              x_space("x3-rejoin-preempt2",
                       [dict(sessions=["r", "w"]), "o", "w"], [I, I, U], None,
-                      0, None, 0, s),
-              x_space("x2-rejoin-same-terminal",
+                      0, 2, 0, s),
+              x_space("x2-rejoin-same-terminal-preempt3",
                       [dict(sessions=[[[0, "r"], [0, "w"]], "o"]), "r"],
-                      [I, I], None, 0, None, 0, s, sched=[A, None])]
+                      [I, I], None, 0, 3, 0, s, sched=[A, None])]
     only = os.environ.get("C15_SPACES")       # development aid
     if only:
         sp = [x for x in sp if x.name in only.split(",")]
